@@ -149,6 +149,10 @@ class RealNestleBudget(Exception):
 _saved_sample_ellipsoids = None
 
 
+import numpy as np
+last_real_result = {}
+
+
 def bound_real_nestle(maxcall):
     """Harness seam: the real nestle.sample with a cap on likelihood calls
     (step cap of the simulation; nestle returns a regular Result).  nestle
@@ -181,7 +185,11 @@ def bound_real_nestle(maxcall):
             return real_se(ells, rstate=rstate)
         nestle.sample_ellipsoids = counted_se
         try:
-            return real(counted_like, prior_transform, ndim, **kw)
+            res = real(counted_like, prior_transform, ndim, **kw)
+            # what the sampler handed back, copied before the wrapper sees it
+            last_real_result['samples'] = np.array(res.samples, copy=True)
+            last_real_result['weights'] = np.array(res.weights, copy=True)
+            return res
         finally:
             nestle.sample_ellipsoids = real_se
     nestle.sample = bounded
